@@ -52,6 +52,14 @@ def api_case(draw, tier):
                 for k in list(m):
                     if draw(st.integers(0, 2)) == 0:
                         del m[k]
+    if what == "del" and draw(st.booleans()):
+        # the first ID lacks a key the others carry (the state a partial
+        # add_metadata leaves behind)
+        for key in ("obs_md", "samp_md"):
+            if spec[key] is not None and len(spec[key]) > 1 and spec[key][0]:
+                k0 = sorted(spec[key][0])[0]
+                del spec[key][0][k0]
+                spec[key][1].setdefault(k0, "kept-by-others")
     case = {"part": "api", "table": spec, "what": what}
     if what == "add":
         case["axis"] = draw(ops.AX)
